@@ -508,6 +508,10 @@ class SimDevice(object):
                     pass
 
     def put(self, fr, **meta):
+        if self.budget is not None:
+            if self.budget <= 0:
+                return                       # silent from here on: whatever the device would have said (handshake answers included) is never sent
+            self.budget -= 1
         self.nframes += 1
         meta['bytes'] = bytes(fr)
         meta['n'] = self.nframes
@@ -652,10 +656,8 @@ class SimDevice(object):
         r = self.ready()
         if not r:
             return False
-        if self.budget is not None:
-            if self.budget <= 0:
-                return False
-            self.budget -= 1
+        if self.budget is not None and self.budget <= 0:
+            return False                     # the device has fallen silent (the budget is spent in put(), for every packet incl. the handshake's)
         c = self.chooser.pick('dev_next', [(x[0], x[1]) for x in r])
         self.emit(next(x for x in r if (x[0], x[1]) == c))
         return True
